@@ -23,6 +23,7 @@ import (
 	"regexp"
 	"sort"
 	"strings"
+	"sync"
 	"time"
 
 	"github.com/compose-spec/compose-go/v2/consts"
@@ -445,6 +446,40 @@ func c05MemberOf(out json.RawMessage, outs []json.RawMessage) bool {
 	return false
 }
 
+// c05Stats: which branches of the model the c05.apply stream reached (outcome classes of `applyExtendsOrd`, the
+// specification's classification of the document, the real outcome class) — flushed into the evidence's
+// distribution at the end of runC05 (judges run in the harness process).
+var (
+	c05StatsMu sync.Mutex
+	c05Stats   = map[string]int{}
+)
+
+func c05Stat(k string) {
+	c05StatsMu.Lock()
+	c05Stats[k]++
+	c05StatsMu.Unlock()
+}
+
+func c05OutClass(o json.RawMessage) string {
+	var m struct {
+		Ok    json.RawMessage `json:"ok"`
+		Err   *string         `json:"err"`
+		Panic *string         `json:"panic"`
+	}
+	if json.Unmarshal(o, &m) != nil {
+		return "?"
+	}
+	switch {
+	case m.Err != nil:
+		return "err:" + *m.Err
+	case m.Panic != nil:
+		return "panic:" + *m.Panic
+	case m.Ok != nil:
+		return "ok"
+	}
+	return "?"
+}
+
 func judgeC05Apply(args, real, drv json.RawMessage) *core.Verdict {
 	if c := core.Class(real); c == "fatal" || c == "hang" {
 		return core.CrashVerdict(real)
@@ -454,11 +489,20 @@ func judgeC05Apply(args, real, drv json.RawMessage) *core.Verdict {
 		return core.Disagree("malformed real outcome: " + string(real))
 	}
 	var d struct {
-		Outs []json.RawMessage   `json:"outs"`
-		Flat [][]json.RawMessage `json:"flat"`
+		Outs  []json.RawMessage   `json:"outs"`
+		Flat  [][]json.RawMessage `json:"flat"`
+		Walk  [][2]string         `json:"walk"`
+		Stuck [][]*string         `json:"stuck"`
 	}
 	if json.Unmarshal(drv, &d) != nil || len(d.Outs) == 0 {
 		return core.Disagree("malformed driver outcome: " + string(drv))
+	}
+	for _, o := range d.Outs {
+		c05Stat("apply/model-outcome/" + c05OutClass(o))
+	}
+	c05Stat("apply/real-outcome/" + c05OutClass(r.Out))
+	if len(d.Outs) > 1 {
+		c05Stat("apply/model-outcomes>1")
 	}
 	if len(r.Shared) > 0 {
 		return core.Fail("result-shares-structure:"+sharedKind(r.Shared[0]), "the resolved services are not a tree: "+strings.Join(r.Shared, "; "))
@@ -467,6 +511,14 @@ func judgeC05Apply(args, real, drv json.RawMessage) *core.Verdict {
 	// by the driver for every service — no tracker, no memoisation, no visit order.  Inside its domain (every service
 	// flattens) the real outcome must be exactly that: a difference is a failing input, not just a broken tie.
 	if v := c05SpecVerdict(args, r.Out, d.Flat); v != nil {
+		return v
+	}
+	// ---- cycle oracle (Props/C05Cycle.lean): `circular` is reported iff some chain runs into a cycle
+	if v := c05CycleVerdict(args, r.Out, d.Flat, d.Walk); v != nil {
+		return v
+	}
+	// ---- stuck oracle (Props/C05Stuck.lean): a chain that cannot be followed is an error, of the class of the broken link
+	if v := c05StuckVerdict(r.Out, d.Stuck); v != nil {
 		return v
 	}
 	if !c05MemberOf(r.Out, d.Outs) {
@@ -595,6 +647,130 @@ func c05SpecVerdict(args, realOut json.RawMessage, flat [][]json.RawMessage) *co
 		}
 	}
 	return core.Fail("extends-ne-flatten:"+strings.Join(u, ","), "a resolved service differs from base-then-local flattening (override rules = the C04 merge model) in "+strings.Join(u, ","))
+}
+
+// c05CycleVerdict decides `circular_sound` and `cycle_is_circular` on the real outcome.  The driver classifies every
+// service: it flattens (`flattenF` = `Flat`), its link walk `walkChain` is still going after more links than there are
+// distinct (mapping, name) nodes — i.e. it runs into a cycle, `walkChain_long_iff_cyclic` —, or it has another defect.
+//   - the real code reports `circular` although no chain is cyclic (and no service is null / not a mapping): the tracker
+//     reported a cycle that is not there                                        → circular-without-cycle
+//   - every service flattens or is cyclic, at least one is cyclic, and the real code accepts the document or reports
+//     something else                                                            → cycle-accepted:apply / cycle-misreported:<class>
+func c05CycleVerdict(args, realOut json.RawMessage, flat [][]json.RawMessage, walk [][2]string) *core.Verdict {
+	if len(flat) == 0 || len(walk) != len(flat) {
+		return nil
+	}
+	long := map[string]bool{}
+	for _, w := range walk {
+		c05Stat("apply/walk/" + w[1])
+		long[w[1]+"\x00"+w[0]] = true
+	}
+	nCyc, nOther, nNotSvc := 0, 0, 0
+	for _, e := range flat {
+		if len(e) != 2 {
+			return nil
+		}
+		var o struct {
+			Ok    json.RawMessage `json:"ok"`
+			Err   *string         `json:"err"`
+			Panic *string         `json:"panic"`
+		}
+		var name string
+		if json.Unmarshal(e[1], &o) != nil || json.Unmarshal(e[0], &name) != nil {
+			return nil
+		}
+		switch {
+		case o.Ok != nil:
+		case long["long\x00"+name]: // the link walk never ends: the chain runs into a cycle (walkChain_long_iff_cyclic)
+			nCyc++
+		case o.Err != nil && (*o.Err == "flatten:not-a-service" || *o.Err == "flatten:base-not-a-mapping"):
+			nNotSvc++
+			nOther++
+		default:
+			nOther++
+		}
+	}
+	switch {
+	case nCyc > 0 && nOther == 0:
+		c05Stat("apply/spec/cyclic-only")
+	case nCyc > 0:
+		c05Stat("apply/spec/cyclic+other-defect")
+	case nOther > 0:
+		c05Stat("apply/spec/other-defect")
+	default:
+		c05Stat("apply/spec/all-flat")
+	}
+	var ro struct {
+		Ok    json.RawMessage `json:"ok"`
+		Err   *string         `json:"err"`
+		Panic *string         `json:"panic"`
+	}
+	if json.Unmarshal(realOut, &ro) != nil || ro.Panic != nil {
+		return nil
+	}
+	if ro.Err != nil && *ro.Err == "circular" {
+		c05Stat("apply/real-circular")
+	}
+	var a c05ApplyArgs
+	json.Unmarshal(args, &a)
+	if ro.Err != nil && *ro.Err == "circular" && nCyc == 0 && nNotSvc == 0 {
+		return core.Fail("circular-without-cycle:"+a.trackerClash(), "ApplyExtends reports a circular reference, but no service's chain runs into a cycle")
+	}
+	if nCyc > 0 && nOther == 0 {
+		if ro.Ok != nil {
+			return core.Fail("cycle-accepted:apply", "a chain runs into a cycle and ApplyExtends accepts the document")
+		}
+		if ro.Err != nil && *ro.Err != "circular" {
+			return core.Fail("cycle-misreported:"+*ro.Err, "every service flattens or is cyclic, at least one is cyclic, and ApplyExtends fails with "+*ro.Err+" instead of a circular reference")
+		}
+	}
+	return nil
+}
+
+// c05LocateClasses are the error classes that name a link which cannot be followed (as opposed to a cycle, a failing
+// merge, or the loading of a file going wrong inside yaml / interpolation / canonical form).
+var c05LocateClasses = map[string]bool{"notFound": true, "noFile": true, "notFoundInFile": true, "noServices": true,
+	"fileServicesNotMapping": true, "serviceNotMapping": true, "extendsServiceNotString": true, "extendsFileNotString": true, "resolveErr": true}
+
+// c05StuckVerdict decides `stuck_service_error_class` / `stuck_excludes_flat_and_cycle` on the real outcome: the driver
+// says, per service, with which class its chain gets stuck (`stuckClass`: links only, no merge, no tracker).
+//   - some chain is stuck and the real code accepts the document                → stuck-accepted:<class>
+//   - the real code reports a link that cannot be followed, and no chain is stuck with that class → error-without-cause:<class>
+func c05StuckVerdict(realOut json.RawMessage, stuck [][]*string) *core.Verdict {
+	if len(stuck) == 0 {
+		return nil
+	}
+	classes := map[string]bool{}
+	var first string
+	for _, e := range stuck {
+		if len(e) != 2 || e[0] == nil {
+			return nil
+		}
+		if e[1] != nil {
+			c05Stat("apply/stuck/" + *e[1])
+			if len(classes) == 0 {
+				first = *e[1]
+			}
+			classes[*e[1]] = true
+		} else {
+			c05Stat("apply/stuck/-")
+		}
+	}
+	var ro struct {
+		Ok    json.RawMessage `json:"ok"`
+		Err   *string         `json:"err"`
+		Panic *string         `json:"panic"`
+	}
+	if json.Unmarshal(realOut, &ro) != nil || ro.Panic != nil {
+		return nil
+	}
+	if ro.Ok != nil && len(classes) > 0 {
+		return core.Fail("stuck-accepted:"+first, "the chain of a service cannot be followed ("+first+") and ApplyExtends accepts the document")
+	}
+	if ro.Err != nil && c05LocateClasses[*ro.Err] && !classes[*ro.Err] {
+		return core.Fail("error-without-cause:"+*ro.Err, "ApplyExtends fails with "+*ro.Err+", but no service's chain gets stuck with that class")
+	}
+	return nil
 }
 
 // ---------------------------------------------------------------- c05.extend
